@@ -513,11 +513,59 @@ def countarray(run, fx):
         run.held('VALIDATOR', inst, '', '%d count / array pairs with a success return' % n)
 
 
+def glatend(run, fx):
+    """VALIDATOR: the Glat attribute iterators are 'equal to the end' as soon as fewer bytes are left than one value takes: operator*
+    reads a whole value at the cursor (be::peek<uint16>(_v): 2 bytes), so the loop that consumes a glyph's attribute span
+    (sparse::sparse, `i != last`) may only continue while  end - cursor >= 2.  As linear forms: operator== answers `_v >= rhs._e - k`
+    with k >= (bytes read by operator*) - 1.  With k = 0 a span that ends half-way through a value -- at the very end of the Glat table
+    -- is read one byte too far."""
+    from . import linear
+    from .cfg import int_type
+    n = 0
+    for fn in fx.all_fns():
+        if '_glat_iterator<' not in fn.q and '_glat_iterator<' not in (fn.f.get('qt') or ''):
+            continue
+        if not fn.q.endswith('operator=='):
+            continue
+        cls = fn.f.get('cls') or fn.q.rsplit('::', 1)[0]
+        rets = [e for _, e in fn.elements() if e['k'] == 'ReturnStmt' and e.get('c')]
+        stars = [g for g in fx.all_fns() if g.q.endswith('operator*') and (g.f.get('cls') or g.q.rsplit('::', 1)[0]) == cls and (g.f.get('unit') == fn.f.get('unit'))]
+        inst = 'the Glat iterator stops while a whole value is left (%s)' % (fn.f.get('qt') or fn.q).split('_glat_iterator')[-1].split('::')[0]
+        if len(rets) != 1 or not stars:
+            run.broken('VALIDATOR', inst, 'operator== / operator* of the Glat iterator not recognised', fn.where())
+            continue
+        width = 0
+        for _, e in stars[0].elements():
+            if e['k'] == 'CallExpr' and (e.get('fq') or '').split('<')[0].endswith(('be::peek', 'be::read')) and '_v' in stars[0].render(e):
+                it_ = int_type(e.get('t'))
+                if it_:
+                    width = max(width, it_[0] // 8)
+        c = fn.strip_all_casts(fn.N(rets[0]['c'][0]))
+        if c['k'] != 'BinaryOperator' or c.get('op') not in ('>=', '>') or not width:
+            run.broken('VALIDATOR', inst, 'the end test is not of the form cursor >= end - k (%s), or the value width is unknown' % fn.render(c), fn.where())
+            continue
+        a, b = linear.lin(fn, c['c'][0], through_unsigned=True), linear.lin(fn, c['c'][1], through_unsigned=True)
+        t, k = linear.diff(a, b)             # cursor - end + k  (>= 0 | > 0)
+        if sorted(t.values()) != [-1, 1]:
+            run.broken('VALIDATOR', inst, 'the end test compares something other than the cursor with the end: %s' % fn.render(c), fn.where())
+            continue
+        n += 1
+        k_eff = k - (1 if c['op'] == '>' else 0)          # stops when cursor >= end - k_eff
+        if k_eff >= width - 1:
+            run.held('VALIDATOR', inst, fn.loc(rets[0]), '`%s`: the loop continues only while %d byte(s) are left; operator* reads %d' % (fn.render(c), k_eff + 1, width))
+        else:
+            run.violated('VALIDATOR', inst, fn.loc(rets[0]), 'the iterator counts as "at the end" only when `%s`, so the consuming loop (sparse::sparse) still dereferences it with %d byte(s) left while '
+                         'operator* reads %d: a glyph\'s attribute span that ends inside a value at the end of the Glat table is read past the table' % (fn.render(c), k_eff + 1, width))
+    if n < 2:
+        run.broken('VALIDATOR', 'the Glat iterator stops while a whole value is left', 'expected both instantiations of _glat_iterator::operator==, recognised %d' % n)
+
+
 def run(run):
     vm = R.get_vm(run)
     fx = vm.fx
     narrowinit(run, fx)
     countarray(run, fx)
+    glatend(run, fx)
     attridx(run, fx)
     checkafteruse(run, fx)
     extentfirst(run, fx)
